@@ -329,7 +329,7 @@ pub fn contract_attr_lines(p: &Program) -> Vec<String> {
         lines.push("#[sv::features(replies)]".to_string());
     }
     for k in &p.contract.overrides {
-        lines.push(format!("#[sv::override_entry_point({}=ovr::{}(OvrMsg))]", k.attr(), k.ep()));
+        lines.push(format!("#[sv::override_entry_point({}=ovr::{}(OvrMsg))]", k.attr(), ovr_fn_name(p, *k)));
     }
     lines
 }
@@ -401,6 +401,24 @@ pub fn render_contract_item(p: &Program) -> String {
     render_contract_item_with(p, &contract_attr_lines(p), &contract_method_texts(p))
 }
 
+/// Name of the free function standing in for the overridden entry point of kind `k`: the
+/// canonical entry-point name, a custom name, or the canonical name of *another* kind with the
+/// same signature (the function's name must not matter to the macros).
+pub fn ovr_fn_name(p: &Program, k: Kind) -> String {
+    match p.contract.methods.len() % 3 {
+        0 => k.ep().to_string(),
+        1 => format!("custom_{}", k.ep()),
+        _ => match k {
+            Kind::Exec => "instantiate".into(),
+            Kind::Instantiate => "execute".into(),
+            Kind::Sudo => "migrate".into(),
+            Kind::Migrate => "sudo".into(),
+            Kind::Query => "smart_query".into(),
+            Kind::Reply => "on_reply".into(),
+        },
+    }
+}
+
 /// Free functions standing in for overridden entry points.
 pub fn render_overrides(p: &Program) -> String {
     if p.contract.overrides.is_empty() {
@@ -415,24 +433,26 @@ pub fn render_overrides(p: &Program) -> String {
             Kind::Exec | Kind::Instantiate => writeln!(
                 s,
                 "    pub fn {ep}(deps: DepsMut<{q}>, env: Env, info: MessageInfo, msg: OvrMsg) -> Result<Response<{c}>, {err}> {{ echo_mut::<{q}, {c}>(deps, &env, Some(&info), \"override::{a}\", \"{a}\", vec![(\"tag\", svrt::j(&msg.tag))], svrt::serde_json::Value::Null){conv} }}",
-                ep = k.ep(),
+                ep = ovr_fn_name(p, *k),
                 a = k.attr()
             )
             .unwrap(),
             Kind::Query => writeln!(
                 s,
-                "    pub fn query(deps: Deps<{q}>, env: Env, msg: OvrMsg) -> Result<Binary, {err}> {{ let r = echo_query::<{q}, EchoA>(deps, &env, \"override::query\", vec![(\"tag\", svrt::j(&msg.tag))], |r| <EchoA as svrt::FromRec>::from_rec(r)){conv}?; Ok(svrt::to_bin(&r)) }}"
+                "    pub fn {ep}(deps: Deps<{q}>, env: Env, msg: OvrMsg) -> Result<Binary, {err}> {{ let r = echo_query::<{q}, EchoA>(deps, &env, \"override::query\", vec![(\"tag\", svrt::j(&msg.tag))], |r| <EchoA as svrt::FromRec>::from_rec(r)){conv}?; Ok(svrt::to_bin(&r)) }}",
+                ep = ovr_fn_name(p, *k)
             )
             .unwrap(),
             Kind::Reply => writeln!(
                 s,
-                "    pub fn reply(deps: DepsMut<{q}>, env: Env, msg: Reply) -> Result<Response<{c}>, {err}> {{ echo_mut::<{q}, {c}>(deps, &env, None, \"override::reply\", \"reply\", vec![(\"id\", svrt::j(&msg.id))], svrt::serde_json::Value::Null){conv} }}"
+                "    pub fn {ep}(deps: DepsMut<{q}>, env: Env, msg: Reply) -> Result<Response<{c}>, {err}> {{ echo_mut::<{q}, {c}>(deps, &env, None, \"override::reply\", \"reply\", vec![(\"id\", svrt::j(&msg.id))], svrt::serde_json::Value::Null){conv} }}",
+                ep = ovr_fn_name(p, *k)
             )
             .unwrap(),
             _ => writeln!(
                 s,
                 "    pub fn {ep}(deps: DepsMut<{q}>, env: Env, msg: OvrMsg) -> Result<Response<{c}>, {err}> {{ echo_mut::<{q}, {c}>(deps, &env, None, \"override::{a}\", \"{a}\", vec![(\"tag\", svrt::j(&msg.tag))], svrt::serde_json::Value::Null){conv} }}",
-                ep = k.ep(),
+                ep = ovr_fn_name(p, *k),
                 a = k.attr()
             )
             .unwrap(),
@@ -864,7 +884,8 @@ fn render_helpers(p: &Program, o: &RenderOpts, s: &mut String) {
                 writeln!(s, "        b.extra(\"exec:{}:{label}\", svrt::ExecHelper(Box::new(|vp_addr_, vp_funds_, vp_args_| {{", h.id).unwrap();
                 s.push_str(&decode);
                 writeln!(s, "            let vp_remote_ = {sv}::types::Remote::<{handle}>::new(Addr::unchecked(vp_addr_));").unwrap();
-                writeln!(s, "            let vp_b_ = match vp_funds_ {{ Some(f) => vp_remote_.executor().with_funds(f), None => vp_remote_.executor() }};").unwrap();
+                // the funds setter replaces: for an odd number of coins it is first called with other funds
+                writeln!(s, "            let vp_b_ = match vp_funds_ {{ Some(f) if f.len() % 2 == 1 => vp_remote_.executor().with_funds(vec![Coin {{ denom: \"vp_stale\".into(), amount: Uint128::new(3) }}]).with_funds(f), Some(f) => vp_remote_.executor().with_funds(f), None => vp_remote_.executor() }};").unwrap();
                 writeln!(
                     s,
                     "            let vp_ready_ = <{sv}::types::ExecutorBuilder<({sv}::types::EmptyExecutorBuilderState, {handle})> as {tr}>::{helper}(vp_b_, {}).map_err(|e| e.to_string())?;",
